@@ -54,13 +54,13 @@ def termify(a: Arr):
 
 
 def _termify(a, c, known, depth):
-    # an array whose generic cell is syntactically the one of an array seen before IS that matrix (template term): no search
-    seen_before = c.memo.get("template_hits", 0)
-    t0 = _template_term(a, only_existing=True)
-    if t0 is not None:
-        c.memo["template_hits"] = seen_before + 1
-        a.term = t0
-        return t0
+    # an array whose generic cell is syntactically the one of an array termified before (same template, same parameters) gets
+    # the term decided then - whether that was its own template term or the term of a provably equal known array
+    sig = _template_term(a, signature_only=True)
+    cache = c.memo.setdefault("termify-cache", {})
+    if sig is not None and sig in cache:
+        a.term = cache[sig]
+        return a.term
     # nested call (a cell of a known array itself needs a term): no extensionality search, or it would not terminate
     for (b, t) in (known if depth == 0 else []):
         if b.ndim != a.ndim:
@@ -75,18 +75,22 @@ def _termify(a, c, known, depth):
         if c.is_valid_full(zb(goal)):
             c.oblige("lemma", "matrix-extensionality", goal)
             a.term = t
+            if sig is not None:
+                cache[sig] = t
             return t
     t = _template_term(a)
     if t is None:
         t = z3.Const(c.fresh_name("M"), Mat)
     known.append((a.copy(), t))
     a.term = t
+    if sig is not None:
+        cache[sig] = t
     # link the term's cells to the array's cells on demand: reading the kernel result of a termified
     # array never needs it (kernels are opaque), so no facts are added here
     return t
 
 
-def _template_term(a, only_existing=False):
+def _template_term(a, only_existing=False, signature_only=False):
     """matrix term as an uninterpreted function of the free constants of the generic cell expression (so that
     'the same matrix at provably equal parameters' is the same term by congruence); None if the cell cannot be
     evaluated at bound indices"""
@@ -101,6 +105,7 @@ def _template_term(a, only_existing=False):
     for b_, n_ in zip(bvs, a.shape):
         c.fact(z3.And(b_ >= 0, z3.Implies(zi(n_) > 0, b_ < zi(n_))))
     canon = [z3.Int(f"m!{j}") for j in range(a.ndim)]
+    splits_before = {k_ for k_ in c.memo if isinstance(k_, tuple) and k_ and k_[0] == "split"}
     c.numpy_mode += 1
     try:
         try:
@@ -109,6 +114,20 @@ def _template_term(a, only_existing=False):
             return None
     finally:
         c.numpy_mode -= 1
+    # mixed-radix digits invented while reading the generic cell depend on the generic indices: bound, not parameters
+    digits = []
+    import re as _re
+    import os as _os
+    probe_names = {str(b_) for b_ in bvs} if not _os.environ.get('PYVC_NO_DIGITS') else set()
+    for k_, ids_ in list(c.memo.items()):
+        if isinstance(k_, tuple) and k_ and k_[0] == "split" and k_ not in splits_before:
+            toks = set(_re.findall(r"[A-Za-z_][A-Za-z_0-9.]*![0-9]+", k_[1]))
+            known_digits = {str(x) for x in digits}
+            if not (toks & (probe_names | known_digits)):
+                continue        # a split of an index that does not involve the generic indices: its digits are parameters
+            for d_ in ids_:
+                if z3.is_const(d_) and not any(d_.get_id() == x.get_id() for x in digits):
+                    digits.append(d_)
     if isinstance(v, C):
         exprs = [z3.simplify(v.re), z3.simplify(v.im), zb(v.nan)]
     else:
@@ -118,10 +137,13 @@ def _template_term(a, only_existing=False):
             return None
         exprs = [z3.simplify(v.v), zb(v.nan)]
     exprs += [zi(n) if not is_pyint(n) else z3.IntVal(n) for n in a.shape]
-    sub = list(zip(bvs, canon))
+    dcanon = [z3.Int(f"md!{j}") for j in range(len(digits))]
+    sub = list(zip(bvs, canon)) + list(zip(digits, dcanon))
     exprs = [z3.substitute(e, *sub) for e in exprs]
-    tk, free = sym.template_of(exprs, {b.get_id() for b in canon}, sorts=(z3.IntSort(), z3.RealSort(), z3.BoolSort(), Mat))
+    tk, free = sym.template_of(exprs, {b.get_id() for b in canon + dcanon}, sorts=(z3.IntSort(), z3.RealSort(), z3.BoolSort(), Mat))
     key = ("matrix-template", tk)
+    if signature_only:
+        return (tk, tuple(x.sexpr() for x in free))
     decl = c.memo.get(key)
     if decl is None and only_existing:
         return None
